@@ -903,7 +903,7 @@ spec fn cand_ok<M>(a: Archive<M>, size: int, r: (ObjectHeader, NonZeroU64)) -> b
 // what find returns: the i-th entry of the name's bucket chain
 spec fn found_ok<M>(a: Archive<M>, name: Seq<u8>, f: FoundObject) -> bool {
     let c = bucket_of(a, name);
-    &&& c.contains(f.start) && name_at(a.file, f.start) == name
+    &&& c.contains(f.start) && name_at(a.file, f.start) =~= name
     &&& f.header == hdr(a.file, f.start) && f.prev == ptr(c, c.index_of(f.start) - 1)
 }
 // ---- create_empty ----------------------------------------------------------------------------------
